@@ -393,3 +393,196 @@ Proof.
         replace (Z.to_nat dst + n + (t - Z.to_nat dst - n))%nat with t by lia.
         specialize (Hout (Z.of_nat t) ltac:(lia) ltac:(lia)). unfold nthz in Hout. rewrite Nat2Z.id in Hout. exact Hout.
 Qed.
+
+Lemma skipn_app_plus {A} (a b : list A) k : skipn (length a + k) (a ++ b) = skipn k b.
+Proof. induction a as [|x r IH]; cbn; [reflexivity|exact IH]. Qed.
+Lemma firstn_app_exact {A} (a b : list A) : firstn (length a) (a ++ b) = a.
+Proof. rewrite firstn_app, firstn_all, Nat.sub_diag. cbn. apply app_nil_r. Qed.
+Lemma skipn_app_le {A} (a b : list A) n : (n <= length a)%nat -> skipn n (a ++ b) = skipn n a ++ b.
+Proof. intros H. rewrite skipn_app. replace (n - length a)%nat with 0%nat by lia. reflexivity. Qed.
+
+Lemma skipn_add {A} (l : list A) : forall a b, skipn (a + b) l = skipn b (skipn a l).
+Proof. induction l as [|x r IH]; intros [|a] b; cbn; try reflexivity; [destruct b; reflexivity|apply IH]. Qed.
+
+Section CCMP_roundtrip.
+  Variable E : list Z -> list Z.
+  Hypothesis E16 : forall x, length (E x) = 16%nat.
+
+  (* what a sender does with the payload (RFC 3610 with the 802.11 parameters): counter-mode blocks and the CBC-MAC chain *)
+  Fixpoint ctr_enc (fuel : nat) (pfx : list Z) (i : Z) (m : list Z) : list Z :=
+    match fuel, m with
+    | S f, _ :: _ => xorl (E (pfx ++ be16 i)) (firstn 16 m) ++ ctr_enc f pfx (i + 1) (skipn 16 m)
+    | _, _ => []
+    end.
+  Fixpoint cbc_mac (fuel : nat) (mic : list Z) (m : list Z) : list Z :=
+    match fuel, m with
+    | S f, _ :: _ => cbc_mac f (E (xor_first mic (firstn 16 m))) (skipn 16 m)
+    | _, _ => mic
+    end.
+
+  Lemma xorl_cancel a b : (length b <= length a)%nat -> xorl (firstn (length b) a) (xorl a b) = b.
+  Proof.
+    revert b. induction a as [|x r IH]; intros [|y s] H; cbn in *; try lia; [reflexivity|reflexivity|].
+    f_equal; [apply lxor_cancel|apply IH; lia].
+  Qed.
+
+  Lemma xorl_firstn_l a b : xorl (firstn (length b) a) b = xorl a b.
+  Proof. revert b. induction a as [|x r IH]; intros [|y s]; cbn; try reflexivity. f_equal. apply IH. Qed.
+
+  (* the decryption loop, from block i on: [done] is the plaintext recovered so far, [gap] the 8 stale bytes behind it *)
+  Lemma ccmp_blocks_rt fuel : forall i mic done gap rest tag blocks total pfx,
+    1 <= i -> length done = Z.to_nat (16 * (i - 1)) -> length gap = 8%nat ->
+    total = Z.of_nat (length done + length rest) -> blocks = (total + 15) / 16 ->
+    (length rest <= 16 * fuel)%nat -> (rest = [] -> blocks < i) -> (rest <> [] -> i <= blocks) ->
+    ccmp_blocks E fuel i blocks total (8 + 16 * (i - 1)) pfx mic (done ++ gap ++ ctr_enc fuel pfx i rest ++ tag) =
+      Ok (cbc_mac fuel mic rest, (done ++ rest) ++ skipn (length rest) (gap ++ ctr_enc fuel pfx i rest) ++ tag).
+  Proof.
+    induction fuel as [|f IH]; intros i mic done gap rest tag blocks total pfx Hi Hd Hg Ht Hb Hf He Hne.
+    - assert (rest = []) by (destruct rest; [reflexivity|cbn in Hf; lia]). subst rest. cbn [ccmp_blocks ctr_enc cbc_mac].
+      replace (blocks <? i) with true by (specialize (He eq_refl); lia). rewrite !app_nil_r. cbn [length skipn app]. reflexivity.
+    - destruct rest as [|r0 rest'].
+      + cbn [ccmp_blocks ctr_enc cbc_mac]. replace (blocks <? i) with true by (specialize (He eq_refl); lia).
+        rewrite !app_nil_r. cbn [length skipn app]. reflexivity.
+      + set (rest := r0 :: rest') in *. assert (Hle : i <= blocks) by (apply Hne; discriminate).
+        cbn [ccmp_blocks]. replace (blocks <? i) with false by lia.
+        set (blk := firstn 16 rest). set (bs := Z.of_nat (length blk)).
+        assert (Hbl : (1 <= length blk <= 16)%nat) by (unfold blk; rewrite firstn_length; cbn [length rest]; lia).
+        assert (Hbs : (if (if i =? blocks then total mod 16 else 16) =? 0 then 16 else (if i =? blocks then total mod 16 else 16)) = bs).
+        { unfold bs, blk. rewrite firstn_length.
+          assert (Hlr : (1 <= length rest)%nat) by (unfold rest; cbn [length]; lia).
+          assert (Hdz : Z.of_nat (length done) = 16 * (i - 1)) by lia.
+          assert (Htz : total = 16 * (i - 1) + Z.of_nat (length rest)) by lia.
+          clearbody rest. clear Hd Ht.
+          destruct (i =? blocks) eqn:Ei.
+          - assert (i = blocks) by lia. subst i. destruct (total mod 16 =? 0) eqn:Em; lia.
+          - change (16 =? 0) with false. cbv iota. lia. }
+        rewrite Hbs.
+        assert (Hctr : ctr_enc (S f) pfx i rest = xorl (E (pfx ++ be16 i)) blk ++ ctr_enc f pfx (i + 1) (skipn 16 rest)) by reflexivity.
+        rewrite Hctr.
+        set (cblk := xorl (E (pfx ++ be16 i)) blk). set (R := ctr_enc f pfx (i + 1) (skipn 16 rest)).
+        assert (Hcl : length cblk = length blk) by (unfold cblk; rewrite xorl_length, E16; lia).
+        set (buf := done ++ gap ++ (cblk ++ R) ++ tag).
+        destruct (xor_inplace_list (Z.to_nat bs) (E (pfx ++ be16 i)) buf (8 + 16 * (i - 1)) ((i - 1) * 16)) as (buf' & Hx & Hbuf').
+        { rewrite E16. lia. } { lia. }
+        { unfold buf, zlen. rewrite !app_length, Hd, Hg, Hcl. lia. }
+        rewrite Hx. cbn [bind].
+        (* the new buffer *)
+        assert (Hb' : buf' = (done ++ blk) ++ skipn (length blk) (gap ++ cblk) ++ R ++ tag).
+        { rewrite Hbuf'. unfold buf, bs. rewrite Nat2Z.id.
+          replace (Z.to_nat ((i - 1) * 16)) with (length done) by lia.
+          replace (Z.to_nat (8 + 16 * (i - 1))) with (length done + 8)%nat by lia.
+          rewrite firstn_app_exact. rewrite !skipn_app_plus.
+          replace 8%nat with (length gap + 0)%nat at 1 by lia. rewrite skipn_app_plus. cbn [skipn].
+          rewrite <- (app_assoc cblk R tag). rewrite <- Hcl. rewrite firstn_app_exact. rewrite Hcl.
+          unfold cblk at 1. rewrite xorl_cancel by (rewrite E16; lia).
+          rewrite <- !app_assoc. f_equal. f_equal.
+          rewrite (app_assoc gap cblk). rewrite skipn_app_le by (rewrite app_length; lia). reflexivity. }
+        (* the MAC input of this round is the recovered block *)
+        assert (Hm : zfirstn bs (zskipn ((i - 1) * 16) buf') = blk).
+        { rewrite Hb'. unfold zfirstn, zskipn, bs. rewrite Nat2Z.id. replace (Z.to_nat ((i - 1) * 16)) with (length done) by lia.
+          rewrite <- app_assoc. rewrite skipn_app, skipn_all2 by lia. cbn [app]. rewrite Nat.sub_diag. cbn [skipn].
+          rewrite firstn_app, firstn_all, Nat.sub_diag. cbn [firstn]. apply app_nil_r. }
+        rewrite Hm.
+        assert (Hgap : length (skipn (length blk) (gap ++ cblk)) = 8%nat) by (rewrite skipn_length, app_length; lia).
+        assert (Hrest : rest = blk ++ skipn 16 rest) by (unfold blk; symmetry; apply firstn_skipn).
+        assert (Hlr : length rest = (length blk + length (skipn 16 rest))%nat) by (rewrite Hrest at 1; apply app_length).
+        destruct (skipn 16 rest) as [|q0 q] eqn:Esk.
+        { (* this was the last block *)
+          assert (HR : R = []) by (unfold R; destruct f; reflexivity).
+          assert (Hblk : blk = rest) by (rewrite app_nil_r in Hrest; symmetry; exact Hrest).
+          assert (Hlast : blocks < i + 1).
+          { assert (Hdz : Z.of_nat (length done) = 16 * (i - 1)) by lia. cbn [length] in Hlr. clear Hd Hbuf' Hb' Hm. lia. }
+          assert (Hend : forall off mc bf, ccmp_blocks E f (i + 1) blocks total off pfx mc bf = Ok (mc, bf)).
+          { intros. destruct f; cbn [ccmp_blocks]; replace (blocks <? i + 1) with true by lia; reflexivity. }
+          rewrite Hend. f_equal. f_equal.
+          * cbn [cbc_mac]. unfold rest at 1. fold rest. fold blk. rewrite Esk. destruct f; reflexivity.
+          * rewrite Hb', HR, Hblk. cbn [app]. rewrite app_nil_r. reflexivity. }
+        { (* a full block, more to come *)
+          assert (Hb16 : length blk = 16%nat).
+          { unfold blk. rewrite firstn_length. cbn [length] in Hlr. unfold blk in Hlr. rewrite firstn_length in Hlr. lia. }
+          replace (8 + 16 * (i - 1) + bs) with (8 + 16 * (i + 1 - 1)) by (unfold bs; lia).
+          rewrite Hb'. unfold R.
+          rewrite (IH (i + 1) (E (xor_first mic blk)) (done ++ blk) (skipn (length blk) (gap ++ cblk)) (q0 :: q) tag blocks total pfx).
+          * f_equal. f_equal.
+            -- cbn [cbc_mac]. unfold rest at 1. fold rest. fold blk. rewrite Esk. reflexivity.
+            -- assert (H1 : (done ++ blk) ++ q0 :: q = done ++ rest) by (rewrite <- app_assoc; f_equal; symmetry; exact Hrest).
+               rewrite H1. f_equal. f_equal. rewrite Hlr. rewrite skipn_add. f_equal.
+               symmetry. rewrite (app_assoc gap cblk). apply skipn_app_le. rewrite app_length. lia.
+          * lia.
+          * rewrite app_length. lia.
+          * exact Hgap.
+          * rewrite app_length. rewrite Ht, Hlr. cbn [length]. lia.
+          * exact Hb.
+          * rewrite Hlr in Hf. cbn [length] in *. lia.
+          * discriminate.
+          * intros _. assert (Hdz : Z.of_nat (length done) = 16 * (i - 1)) by lia. rewrite Hlr in Ht. cbn [length] in Ht. clear Hd Hbuf' Hb' Hm IH. lia. }
+  Qed.
+  (* the sender (CCMP encapsulation): header, counter-mode ciphertext, encrypted first 8 bytes of the CBC-MAC *)
+  Definition ccmp_encrypt (h : d11) (b0 b1 b2 b3 b4 b5 b6 b7 : Z) (m : list Z) : list Z :=
+    let pn := [b7; b6; b5; b4; b1; b0] in
+    let prio := if h_qos h then h_tid h else 0 in
+    let nonce := [prio] ++ h_a2 h ++ pn in
+    let total := zlen m in
+    let fuel := Z.to_nat ((total + 15) / 16) in
+    let mic := E ([89] ++ nonce ++ be16 total) in
+    let mic := E (xorl mic (zfirstn 16 (aad h))) in
+    let mic := E (xorl mic (zskipn 16 (aad h))) in
+    let pfx := [1] ++ nonce in
+    let tag := xorl (firstn 8 (E (pfx ++ [0; 0]))) (firstn 8 (cbc_mac fuel mic m)) in
+    [b0; b1; b2; b3; b4; b5; b6; b7] ++ ctr_enc fuel pfx 1 m ++ tag.
+
+  Lemma ctr_enc_length fuel : forall pfx i m, (length m <= 16 * fuel)%nat -> length (ctr_enc fuel pfx i m) = length m.
+  Proof.
+    induction fuel as [|f IH]; intros pfx i m H; [destruct m; [reflexivity|cbn in H; lia]|].
+    destruct m as [|x r]; [reflexivity|]. cbn [ctr_enc]. rewrite app_length, xorl_length, E16, firstn_length.
+    rewrite IH by (rewrite skipn_length; lia). rewrite skipn_length. cbn [length]. lia.
+  Qed.
+
+  Lemma cbc_mac_length fuel : forall mic m, length mic = 16%nat -> length (cbc_mac fuel mic m) = 16%nat.
+  Proof.
+    induction fuel as [|f IH]; intros mic m H; [destruct m; exact H|]. destruct m as [|x r]; [exact H|].
+    cbn [cbc_mac]. apply IH. apply E16.
+  Qed.
+
+  Theorem ccmp_roundtrip h b0 b1 b2 b3 b4 b5 b6 b7 m : m <> [] ->
+    ccmp_decrypt E h (ccmp_encrypt h b0 b1 b2 b3 b4 b5 b6 b7 m) = Ok (Some m).
+  Proof.
+    intros Hm. unfold ccmp_encrypt.
+    set (pn := [b7; b6; b5; b4; b1; b0]). set (prio := if h_qos h then h_tid h else 0). set (nonce := [prio] ++ h_a2 h ++ pn).
+    set (total := zlen m). set (fuel := Z.to_nat ((total + 15) / 16)).
+    set (mic2 := E (xorl (E (xorl (E ([89] ++ nonce ++ be16 total)) (zfirstn 16 (aad h)))) (zskipn 16 (aad h)))).
+    set (pfx := [1] ++ nonce). set (c0 := E (pfx ++ [0; 0])). set (micf := cbc_mac fuel mic2 m).
+    set (tag := xorl (firstn 8 c0) (firstn 8 micf)). set (hdr := [b0; b1; b2; b3; b4; b5; b6; b7]).
+    set (body := hdr ++ ctr_enc fuel pfx 1 m ++ tag).
+    assert (Hm1 : (1 <= length m)%nat) by (destruct m; [contradiction|cbn; lia]).
+    assert (Htot : total = Z.of_nat (length m)) by reflexivity.
+    assert (Hfuel : (length m <= 16 * fuel)%nat) by (unfold fuel; lia).
+    assert (Hct : length (ctr_enc fuel pfx 1 m) = length m) by (apply ctr_enc_length; exact Hfuel).
+    assert (Hmicf : length micf = 16%nat) by (apply cbc_mac_length; apply E16).
+    assert (Htag : length tag = 8%nat) by (unfold tag; rewrite xorl_length, !firstn_length, Hmicf; unfold c0; rewrite E16; reflexivity).
+    assert (Hbody : zlen body = total + 16) by (unfold body, zlen; rewrite !app_length, Hct, Htag; cbn [length hdr]; lia).
+    unfold ccmp_decrypt. replace (zlen body <=? 16) with false by lia.
+    rewrite !getb_ok by lia.
+    change (nthz body 0) with b0. change (nthz body 1) with b1. change (nthz body 4) with b4. change (nthz body 5) with b5.
+    change (nthz body 6) with b6. change (nthz body 7) with b7. cbn [bind]. fold pn. fold prio. fold nonce.
+    replace (zlen body - 16) with total by lia. fold mic2. fold pfx. fold c0.
+    replace (Z.to_nat ((total + 15) / 16)) with fuel by reflexivity.
+    pose proof (ccmp_blocks_rt fuel 1 mic2 [] hdr m tag ((total + 15) / 16) total pfx) as Hloop.
+    cbn [app length] in Hloop. change (8 + 16 * (1 - 1)) with 8 in Hloop. fold body in Hloop.
+    rewrite Hloop by first [lia | reflexivity | (intros ->; contradiction) | (intros _; unfold total; lia)].
+    cbn [bind]. fold micf.
+      (* the received MIC, decrypted, is the first half of the CBC-MAC *)
+      assert (Hnice : xorl (zfirstn 8 c0) (zskipn (zlen body - 8) body) = firstn 8 micf).
+      { unfold zfirstn, zskipn. change (Z.to_nat 8) with 8%nat.
+        assert (Hsk : skipn (Z.to_nat (zlen body - 8)) body = tag).
+        { assert (Hn : Z.to_nat (zlen body - 8) = (length (hdr ++ ctr_enc fuel pfx 1 m) + 0)%nat) by (rewrite app_length, Hct; cbn [length hdr]; lia).
+          rewrite Hn. unfold body. rewrite app_assoc. rewrite skipn_app_plus. reflexivity. }
+        rewrite Hsk. unfold tag.
+        assert (H8 : length (firstn 8 micf) = 8%nat) by (rewrite firstn_length; lia).
+        assert (Hc8 : length (firstn 8 c0) = 8%nat) by (rewrite firstn_length; unfold c0; rewrite E16; reflexivity).
+        pose proof (xorl_cancel (firstn 8 c0) (firstn 8 micf) ltac:(lia)) as Hc. rewrite H8 in Hc.
+        rewrite (firstn_all2 (firstn 8 c0)) in Hc by lia. exact Hc. }
+      rewrite Hnice. unfold zfirstn. change (Z.to_nat 8) with 8%nat. rewrite beql_refl. f_equal. f_equal.
+      rewrite Htot, Nat2Z.id. apply firstn_app_exact.
+  Qed.
+End CCMP_roundtrip.
